@@ -55,6 +55,15 @@ def search(ctx):
     for _ in range(ctx.n(800, 20000)):
         s, fam = gen.segment(rng, fam=rng.choice(['int', 'float', 'grid', 'collinear', 'big']))
         t = gen.tvalue(rng)
+        k = rng.random()
+        if k < 0.08:
+            s = s.scaled(10.0 ** -rng.randint(6, 12)); fam = 'tiny-scaled'
+        elif k < 0.16 and len(s.points) == 4:
+            sz = max(abs(p.x) + abs(p.y) for p in s.points) + 1.0
+            h = sz * rng.choice([5e-6, 2e-6, 8e-6])
+            if rng.random() < 0.5: s[1] = P(s[0].x + h, s[0].y)
+            else: s[2] = P(s[3].x - h, s[3].y)
+            t = rng.choice([0.0, 1.0, t]); fam = 'short-handle'
         f = check(s, t)
         if f == [] and rng.random() < 0.25:
             f = gen.freshness(rng, s, {'tangentAtTime': lambda x: x.tangentAtTime(t), 'normalAtTime': lambda x: x.normalAtTime(t), 'curvatureAtTime': lambda x: x.curvatureAtTime(t)})
